@@ -184,7 +184,14 @@ func runM1(w *bufio.Writer, c Case, cs string, stats map[string]int) {
 		return
 	}
 	for _, op := range c.Ops {
-		res := sys.Exec(op)
+		res := execTimed(sys, op)
+		if res == "hang" {
+			// an operation that does not return within the time limit: report it and stop the
+			// whole run (the goroutine cannot be cancelled and would keep burning a core)
+			fmt.Fprintf(w, "%s => hang\nE\n", strings.Join(op, " "))
+			w.Flush()
+			os.Exit(3)
+		}
 		stats["op:"+op[0]]++
 		if strings.HasPrefix(res, "err") {
 			stats["err:"+op[0]]++
@@ -271,6 +278,12 @@ func m1gen(name string) func(r *rand.Rand, tier, id string) Case {
 			fast := []string{"true", "false"}[r.Intn(2)]
 			c.Cfgs = []string{"cache=0,fast=" + fast + ",flush=100000,sync=false,backend=memdb,wrap=true"}
 		}
+		if name == "C04" && len(c.Cfgs) == 0 {
+			// nothing cached in half of the configurations: stale cache entries must not mask missing nodes
+			cf := configsFor(r, tier, 2)
+			cf[0] = strings.Replace(cf[0], cf[0][:strings.Index(cf[0], ",")], "cache=0", 1)
+			c.Cfgs = cf
+		}
 		if name == "C17" {
 			c.Cfgs = wrapConfigs(r, 1, []int{400, 100000})
 		}
@@ -286,5 +299,21 @@ var generators = map[string]func(r *rand.Rand, tier, id string) Case{}
 func init() {
 	for name := range profiles {
 		generators[name] = m1gen(name)
+	}
+}
+
+// execTimed runs one operation with a watchdog.
+func execTimed(sys *Sys, op []string) string {
+	done := make(chan string, 1)
+	go func() { done <- sys.Exec(op) }()
+	limit := 60 * time.Second
+	if op[0] == "crash" || op[0] == "fault" || op[0] == "expimp" {
+		limit = 300 * time.Second
+	}
+	select {
+	case r := <-done:
+		return r
+	case <-time.After(limit):
+		return "hang"
 	}
 }
